@@ -1965,6 +1965,7 @@ func runC16(tier, replay string) int {
 	r.Extra("fault_modes", "403 and 404 once (enumerated over every request identity of the first import and of the import after growth), dropped connection and truncated body (quick: one per endpoint class, thorough: rotated over all identities), 500 once (healed by go-gitlab's retry) and persistent 500 (sampled)")
 
 	rule := "base cases: generated trackers (1..8 issues; comments, edits, title/description changes, label and state events, old-style state notes, ignored system notes, Ghost user, hostile text incl. one-line texts with only C1 control characters; bursts of events within one second, some tens of milliseconds apart, by known and not yet known users, by chance everywhere and planned on the burst trackers: every issue ends with one, the base generation ends within one second, the growth continues in that very second, with the cursor 0..5 s before it or exactly on the issue's updated_at, and a local user adds operations to imported bugs before the next round; planned label histories: all labels removed again before the first import of the issue, the only label removed between two rounds) imported in 6 rounds (import, re-import by cursor, re-import from zero, growth, import, re-import x2) plus a one-shot import; fault cases: one (round, request identity, failure mode) each, followed by a clean run and compared with a never-failed import. non-trivial = base case that imported operations beyond the creations, or fault case whose fault was actually hit; distinct = distinct shape signature (base: sizes, page size, id flavour, pages, #identities, event-kind set; fault: round/mode/endpoint class/page/outcome)"
+	r.Extra("added_in_seeding_round_6", "a further repository imported twice from zero by ONE core.Bridge object (ground truth after the first import, idempotence between the two); one tracker in eight: the second request of a run is answered after 6.2 s, and the cursor stored by the error-free run must not be later than the arrival of the run's first request")
 	return r.Finish(rule, r.Pick(20, 60), []string{
 		"gitlabsim reproduces the GitLab v4 wire format as consumed by go-gitlab v0.107.0 (fields, separate id sequences per table, offset pagination headers)",
 		"updated_after follows GitLab's documented semantics ('Return issues updated on or after the given time'): an issue whose updated_at equals the cursor exactly is listed; timestamps have millisecond precision on the wire and an issue's updated_at is the time of its last note, label event or state event",
